@@ -9,7 +9,7 @@ func init() {
 		"seeded schedule search over the real writeQuota with a byte ledger"))
 	regProp("C05", wtiBig("internal/transport.recvBuffer (put/compactBacklogLocked/load) and recvBufferReader (Read/ReadMessageHeader, server and client flavour; the client flavour with a real ClientStream.Close -> http2Client.closeStream on a minimal transport) in transport.go", "mem.Buffer reference counting (mem/buffers.go)").doc(
 		"Seeded search over frame-size sequences (including bursts of more than 1024 sub-56-byte frames, with pooled 1-4 KiB frames mixed in, so that compaction runs and releases pooled buffers), interleavings of the producer's puts with an application reading via Read(n)/ReadMessageHeader of arbitrary sizes, error/EOF injection points (also from a second goroutine), context cancellation, and envconfig.EnableReceiveBufferCompaction on/off. Every payload byte is a function of (frame index, offset); the checker compares every delivered byte with the expected stream, brackets the reported error between the puts that completed before it and those that started after it, requires the error to be sticky with no data after it, flags a read still blocked at quiescence while data or an error is buffered, and uses a tracking, poisoning buffer pool (double free, leak after a complete read, recycled while owned). Sampling, not proof.",
-		"DATA payloads are built as framer.readDataFrame builds them (<= 1 KiB: heap slice, larger: pooled); zero-length payloads are not put because no transport puts them (both handleData paths guard dataLen > 0). Client-flavour errors go through http2Client.closeStream (first caller wins), server-flavour errors are raw puts: exactly one per run, except that one run in eight puts several (a peer repeating END_STREAM); this found the nil-buffer Free panic on a second error put, repaired in /repo by "fix: transport: recvBuffer.put must not free a nil buffer" (mutants/c05_reintroduce_nil_free.diff reverts it). Buffers still queued when a server-side reader abandons the stream on context cancellation are left to the GC by grpc-go and are only counted. The window-update side of transportReader is not part of this check.",
+		"DATA payloads are built as framer.readDataFrame builds them (<= 1 KiB: heap slice, larger: pooled); zero-length payloads are not put because no transport puts them (both handleData paths guard dataLen > 0). Client-flavour errors go through http2Client.closeStream (first caller wins), server-flavour errors are raw puts: exactly one per run, except that one run in eight puts several (a peer repeating END_STREAM); this found the nil-buffer Free panic on a second error put, repaired in /repo by 'fix: transport: recvBuffer.put must not free a nil buffer' (mutants/c05_reintroduce_nil_free.diff reverts it). Buffers still queued when a server-side reader abandons the stream on context cancellation are left to the GC by grpc-go and are only counted. The window-update side of transportReader is not part of this check.",
 		"seeded schedule and input search over the real recvBuffer/recvBufferReader with attributable payload bytes and a tracking buffer pool"))
 	regProp("C16", wti(1500, "internal/transport.controlBuffer (controlbuf.go: executeAndPut/put/get/getOnceLocked/throttle/finish, itemList)").doc(
 		"Seeded search over interleavings of reader goroutines (throttle() then put of the control items a transport reader produces), application-side producers (stream-creation requests via executeAndPut, DATA with pooled buffers, window updates, clean-ups), one consumer in the role of loopy (blocking and non-blocking get, stalls) and finish()/done at a random point, for throttle limits 1..8 (maxQueuedControlBufferItems is a package variable in this tree and is set per run). At every quiescent point the real item list is walked: a goroutine inside throttle() with fewer than limit non-HEADERS/DATA items queued, or after finish()/done, is a lost wake-up; after finish() every put is refused with ErrConnClosing without running its callback, every accepted but unconsumed stream-creation request had onOrphaned(ErrConnClosing) exactly once, every DATA buffer went back to the pool exactly once, nothing stays queued. Sampling, not proof.",
